@@ -84,6 +84,8 @@ enum Ev {
     /// to every shard. A separate step, so that timeouts and aborts can fall between the last
     /// vote and the commit decision.
     CoordCommit(u8),
+    /// a yes vote for transaction t arrives from a shard that is not one of its participants (misrouted)
+    StrayYes(u8),
 }
 #[derive(Clone, Copy, Debug, PartialEq, Eq, Hash, PartialOrd, Ord)]
 enum Decision {
@@ -99,6 +101,8 @@ struct Cfg {
     timeouts: u8,
     client_aborts: u8,
     depth: usize,
+    /// budget of misrouted votes from a non-participant shard
+    strays: u8,
 }
 
 /// which key transaction t writes on shard s (t0 and t1 collide on shard 0)
@@ -129,7 +133,8 @@ fn take_store() -> TensorStore {
 }
 impl Drop for World {
     fn drop(&mut self) {
-        for p in &self.parts {
+        let outsider = self.outsider.as_ref().map(|(p, _)| p.clone());
+        for p in self.parts.iter().chain(outsider.iter()) {
             let st = p.store().clone();
             for k in st.scan("") {
                 let _ = st.delete(&k);
@@ -161,6 +166,9 @@ struct World {
     dups_left: u8,
     timeouts_left: u8,
     client_aborts_left: u8,
+    strays_left: u8,
+    /// a shard outside every transaction's participant set (source of misrouted votes)
+    outsider: Option<(Arc<TxParticipant>, TxHandler)>,
     violation: Option<(String, String)>,
 }
 
@@ -186,6 +194,11 @@ impl World {
             dups_left: cfg.dups,
             timeouts_left: cfg.timeouts,
             client_aborts_left: cfg.client_aborts,
+            strays_left: cfg.strays,
+            outsider: (cfg.strays > 0).then(|| {
+                let p = Arc::new(TxParticipant::new(take_store()));
+                (p.clone(), TxHandler::new(p))
+            }),
             violation: None,
         }
     }
@@ -346,6 +359,20 @@ impl World {
                     }
                 }
             }
+            Ev::StrayYes(t) => {
+                let Some(id) = self.ids[*t as usize] else { return false };
+                if self.strays_left == 0 {
+                    return false;
+                }
+                self.strays_left -= 1;
+                // a real yes vote, produced by a real participant that is not part of this transaction
+                let outside = cfg.shards as usize;
+                let m = Message::TxPrepare(TxPrepareMsg { tx_id: id, coordinator: "coord".into(), shard_id: outside, operations: vec![Transaction::Put { key: format!("outside_t{t}"), data: vec![9] }], delta_embedding: SparseVector::new(0), timeout_ms: 5_000 });
+                let Some((_, handler)) = &self.outsider else { return false };
+                if let Some(Message::TxPrepareResponse(r)) = handler.handle(&"coord".to_string(), &m) {
+                    let _ = self.coord.record_vote(r.tx_id, r.shard_id, r.vote.clone().into());
+                }
+            }
             Ev::ClientAbort(t) => {
                 let Some(id) = self.ids[*t as usize] else { return false };
                 if self.client_aborts_left == 0 {
@@ -436,6 +463,13 @@ impl World {
                 v.push(Ev::Duplicate(m.clone()));
             }
         }
+        if self.strays_left > 0 {
+            for t in 0..cfg.ntx {
+                if self.ids[t as usize].is_some() && self.decisions[t as usize].is_empty() {
+                    v.push(Ev::StrayYes(t));
+                }
+            }
+        }
         v
     }
 
@@ -462,7 +496,7 @@ impl World {
             data.sort();
             s.push_str(&format!("p{i}:{prepared:?}{locked:?}{data:?};"));
         }
-        s.push_str(&format!("net{:?};d{:?};va{:?};dy{:?};b{},{},{}", self.net.keys().collect::<Vec<_>>(), self.decisions, self.votes_accepted, self.discarded_yes, self.dups_left, self.timeouts_left, self.client_aborts_left));
+        s.push_str(&format!("net{:?};d{:?};va{:?};dy{:?};b{},{},{},{}", self.net.keys().collect::<Vec<_>>(), self.decisions, self.votes_accepted, self.discarded_yes, self.dups_left, self.timeouts_left, self.client_aborts_left, self.strays_left));
         s
     }
 }
@@ -667,7 +701,7 @@ fn t_mk(p: &TProg) -> TExec {
     // built on a fresh, identically seeded OS thread: same HashMap seeds in every execution
     let ctx: Arc<TCtx> = std::thread::spawn(move || {
         env::set_thread_seed(1000);
-        let cfg = Cfg { ntx: prog.ntx, shards: prog.shards, dups: 0, timeouts: 0, client_aborts: 0, depth: 0 };
+        let cfg = Cfg { ntx: prog.ntx, shards: prog.shards, dups: 0, timeouts: 0, client_aborts: 0, depth: 0, strays: 0 };
         let mut dcfg = DistributedTxConfig::default();
         dcfg.prepare_timeout_ms = 5_000;
         let coord = DistributedTxCoordinator::new(ConsensusManager::new(ConsensusConfig::default()), dcfg);
@@ -870,7 +904,7 @@ fn replay_case(rep: &mut Report, path: &str) {
     } else {
         let label = r["cfg"].as_str().expect("cfg label").to_string();
         let nums: Vec<u8> = label.split(|c: char| !c.is_ascii_digit()).filter(|x| !x.is_empty()).map(|x| x.parse().unwrap()).collect();
-        let cfg = Cfg { ntx: nums[0], shards: nums[1], dups: nums[2], timeouts: nums[3], client_aborts: nums[4], depth: 80 };
+        let cfg = Cfg { ntx: nums[0], shards: nums[1], dups: nums[2], timeouts: nums[3], client_aborts: nums[4], depth: 80, strays: nums.get(5).copied().unwrap_or(0) };
         let events: Vec<Ev> = serde_json::from_value(r["events"].clone()).expect("events");
         let w = replay(&cfg, &events);
         rep.add("transitions", events.len() as u64);
@@ -891,15 +925,17 @@ fn main() {
         rep.finish();
     }
     let thorough = rep.thorough();
-    rep.rule("replay BFS: a state is its event history; each expansion replays it on a fresh real coordinator + participants (TxHandler::handle seam) and runs one more event of {begin, deliver any in-flight prepare/vote/commit/abort, duplicate (budget), coordinator timeout sweep (budget, clock advanced), client abort (budget)}; loss = never delivering, reordering inherent; dedup on a canonical rendering of coordinator transactions, participant prepared sets/locks/data, in-flight messages and history variables; invariants on every state");
+    rep.rule("replay BFS: a state is its event history; each expansion replays it on a fresh real coordinator + participants (TxHandler::handle seam) and runs one more event of {begin, deliver any in-flight prepare/vote/commit/abort, duplicate (budget), coordinator timeout sweep (budget, clock advanced), client abort (budget), a yes vote from a real participant outside the transaction (budget)}; loss = never delivering, reordering inherent; dedup on a canonical rendering of coordinator transactions, participant prepared sets/locks/data, in-flight messages and history variables; invariants on every state");
     rep.rule("part T: 2-3 real threads run the coordinator's commit/abort/record_vote/cleanup_timeouts and the participants' prepare/commit/abort handlers concurrently under the vsched scheduler (every parking_lot/dashmap lock acquisition is a scheduling point), all schedules up to the preemption bound (quick 3, thorough 6); afterwards the single decision is delivered to every shard and decisions, acknowledgements and shard data are compared");
     rep.assume("trusted driver (the repository has no production sender for commit): on record_vote -> Prepared call commit() and only on Ok emit TxCommit; on Aborting call abort(); abort broadcasts are emitted by the real process_pending_aborts; participant-side unilateral timeouts are outside the quantifier and not in the alphabet");
-    let mk = |ntx: u8, shards: u8, dups: u8, timeouts: u8, client_aborts: u8| (format!("{ntx}tx x {shards} shards dup<={dups} timeout<={timeouts} clientabort<={client_aborts}"), Cfg { ntx, shards, dups, timeouts, client_aborts, depth: 80 });
+    let mk = |ntx: u8, shards: u8, dups: u8, timeouts: u8, client_aborts: u8| (format!("{ntx}tx x {shards} shards dup<={dups} timeout<={timeouts} clientabort<={client_aborts}"), Cfg { ntx, shards, dups, timeouts, client_aborts, depth: 80, strays: 0 });
     let cfgs: Vec<(String, Cfg)> = if thorough {
         vec![mk(2, 2, 1, 1, 1), mk(2, 2, 2, 1, 0), mk(3, 2, 0, 1, 0), mk(2, 3, 0, 1, 0)]
     } else {
         vec![mk(2, 2, 1, 1, 0), mk(2, 2, 0, 1, 1), mk(2, 3, 1, 0, 0)]
     };
+    let mut cfgs = cfgs;
+    cfgs.push(("2tx x 2 shards dup<=0 timeout<=1 clientabort<=0 strayvote<=1".to_string(), Cfg { ntx: 2, shards: 2, dups: 0, timeouts: 1, client_aborts: 0, depth: 80, strays: 1 }));
     let only = rep.args.flag("cfg");
     for (label, cfg) in cfgs {
         if only.as_ref().is_some_and(|o| !label.contains(o.as_str())) {
